@@ -1708,6 +1708,14 @@ class DocutilsRenderer(RendererProtocol):
             position,
             additional_options=additional_options,
         )
+        for node in nodes_list:
+            # output without source information belongs to the line of the directive
+            # (`document.current_line` may by now be that of a directive nested in the body,
+            # and is not used at all while the parent is not yet part of the document)
+            if isinstance(node, nodes.Element) and node.line is None:
+                node.line = position
+                if node.source is None:
+                    node.source = self.document["source"]
         self.current_node += nodes_list
 
     def run_directive(
